@@ -1,6 +1,6 @@
 import re
 from dataclasses import dataclass
-from typing import TYPE_CHECKING, Any, Callable, Optional, Pattern, Tuple, Union
+from typing import TYPE_CHECKING, Any, Callable, Dict, Optional, Pattern, Tuple, Union
 
 from apischema.metadata.keys import (
     CONVERSION_METADATA,
@@ -99,7 +99,20 @@ class ValidatorsMetadata(MetadataMixin):
     validators: Tuple["Validator", ...]
 
 
+_validators_cache: Dict[Callable, "Validator"] = {}
+
+
 def validators(*validator: Callable) -> ValidatorsMetadata:
     from apischema.validation.validators import Validator
 
-    return ValidatorsMetadata(tuple(map(Validator, validator)))
+    # One Validator per function: metadata evaluated several times (postponed
+    # annotations) must stay equal, or types holding them never compare equal
+    def get_validator(func: Callable) -> Validator:
+        try:
+            if func not in _validators_cache:
+                _validators_cache[func] = Validator(func)
+            return _validators_cache[func]
+        except TypeError:  # unhashable callable
+            return Validator(func)
+
+    return ValidatorsMetadata(tuple(map(get_validator, validator)))
